@@ -102,6 +102,17 @@ func (c04) Gen(r *rand.Rand, tier string, run int) *core.Case {
 		}
 		kinds = []string{"relay", "relay", "relay", "echo", "noarg"}
 	}
+	if c.Batch == "fault-free" && r.IntN(6) == 0 {
+		// a crowd: more calls in flight than the queues between a connection
+		// and an object hold (10 messages each), the method taking time:
+		// calls may be shed with an error, never run twice or answered twice
+		c.Batch = "crowd"
+		callers = 12 + r.IntN(14)
+		c.Params["callers"] = callers
+		c.Params["slow_ms"] = 1 + r.IntN(3)
+		c.Params["crowd"] = 1
+		kinds = []string{"slow", "slow", "slow", "echo", "fire", "noarg", "cancel-echo"}
+	}
 	if r.IntN(3) == 0 {
 		// the generic object features are calls like any other: statistics
 		// and tracing change how an object answers
@@ -109,6 +120,9 @@ func (c04) Gen(r *rand.Rand, tier string, run int) *core.Case {
 	}
 	for k := 0; k < callers; k++ {
 		n := 1 + r.IntN(4)
+		if c.Params["crowd"] == 1 {
+			n = 1 + r.IntN(2)
+		}
 		conn := r.IntN(nConn)
 		for i := 0; i < n; i++ {
 			c.Ops = append(c.Ops, core.Op{Kind: kinds[r.IntN(len(kinds))], Actor: k, X: int64(conn), Y: int64(r.IntN(nObj)), S: strconv.FormatUint(r.Uint64()>>20, 16)})
@@ -154,6 +168,9 @@ func (c04) Run(c *core.Case, env *core.Env) {
 		return
 	}
 	st.w = w
+	for _, impl := range w.Impls {
+		impl.SlowMs = c.P("slow_ms", 0)
+	}
 	nConn := c.P("conns", 1)
 	proxies := make([][]probe.ProbeProxy, nConn)
 	for i := 0; i < nConn; i++ {
@@ -425,6 +442,9 @@ func (c04) Check(c *core.Case, env *core.Env, res zzsim.Result, v *core.Verdict)
 			}
 			if !h.OK && !strings.Contains(h.Err, "ancel") {
 				env.Probe("call-failed")
+			}
+			if !h.OK && strings.Contains(h.Err, "consumer blocked") {
+				env.Probe("call-shed-by-full-queue")
 			}
 		case "fire":
 			n := len(byKey[key])
